@@ -97,7 +97,19 @@ class TSBurstDetector(Elaboratable):
         ctrl  = self.sink.ctrl
 
 
-        def advance_on_match(count, target_ctrl=0b0000, fail_state="NONE_DETECTED"):
+        def restart_on_mismatch():
+            """ Handles a word that doesn't continue the current set: the run of consecutive sets is over;
+            but the word may itself be the first word of a new set. """
+            first_word_matches = (data == self._set_data[0]) & (ctrl == self._first_word_ctrl)
+
+            m.d.ss += consecutive_set_count.eq(0)
+            with m.If(first_word_matches):
+                m.next = "1_DETECTED"
+            with m.Else():
+                m.next = "WAIT_FOR_FIRST"
+
+
+        def advance_on_match(count, target_ctrl=0b0000):
             data_matches = (data == self._set_data[count])
             ctrl_matches = (ctrl == target_ctrl)
 
@@ -108,7 +120,7 @@ class TSBurstDetector(Elaboratable):
                 with m.If(data_matches & ctrl_matches):
                     m.next = f"{count + 1}_DETECTED"
                 with m.Else():
-                    m.next = fail_state
+                    restart_on_mismatch()
 
 
         last_state_number = len(self._set_data)
@@ -122,7 +134,7 @@ class TSBurstDetector(Elaboratable):
 
             # WAIT_FOR_FIRST -- we're waiting to see the first word of our sequence
             with m.State("WAIT_FOR_FIRST"):
-                advance_on_match(0, target_ctrl=self._first_word_ctrl, fail_state="WAIT_FOR_FIRST")
+                advance_on_match(0, target_ctrl=self._first_word_ctrl)
 
             # 1_DETECTED -- we're parsing the first data word; which we'll do slightly differently,
             # as it can contain a variable configuration field.
@@ -154,7 +166,7 @@ class TSBurstDetector(Elaboratable):
                             ]
 
                     with m.Else():
-                        m.next = "NONE_DETECTED"
+                        restart_on_mismatch()
 
 
             for i in range(2, last_state_number):
